@@ -231,6 +231,34 @@ func runC14(c *Ctx) {
 			}
 			c.Pred("mux", key, fmt.Sprintf("q=%s type=%d patterns=%v", qs, typ, patHex), got == want, got, want, len(pats) > 0)
 		}
+		// HandleRemove: after a pattern is taken out (in any spelling), routing is that of the remaining set
+		if len(pats) > 0 && i%3 == 0 {
+			k := r.Intn(len(pats))
+			rm := presentLabels(pats[k])
+			if r.Bool() && len(pats[k]) > 0 {
+				rm = strings.TrimSuffix(rm, ".")
+			}
+			mux.HandleRemove(randCase(r, rm))
+			removed := asciiLower(presentLabels(pats[k]))
+			var restHex []string
+			seen := map[string]bool{}
+			for _, pl := range pats {
+				canon := asciiLower(presentLabels(pl))
+				if canon != removed && !seen[canon] {
+					seen[canon] = true
+					restHex = append(restHex, hxs(canon))
+				}
+			}
+			for _, typ := range []uint16{dns.TypeA, dns.TypeDS} {
+				got := "none"
+				if h := dns.VerifMuxMatch(mux, qs, typ); h != nil {
+					if th, ok := h.(*tagHandler); ok {
+						got = hxs(th.tag)
+					}
+				}
+				c.OpK("mux", strings.TrimSpace(fmt.Sprintf("mux %s %s %s", b01(typ == dns.TypeDS), hxs(qs), strings.Join(restHex, " "))), got, true, "mux-after-remove")
+			}
+		}
 		// REFUSED when nothing matches: ID, QR, opcode, RD, CD of a query, first question
 		if i%10 == 0 {
 			req := new(dns.Msg)
